@@ -780,6 +780,12 @@ func TestC09(t *testing.T) {
 			} else if f[2] == "srvstop" {
 				ks := strings.TrimPrefix(f[3], "k")
 				slow := strings.HasSuffix(ks, "s")
+				if strings.HasSuffix(ks, "r") && f[1] == "udp" {
+					kr, _ := strconv.Atoi(strings.TrimSuffix(ks, "r"))
+					fmt.Fprintln(w, runServerReconnect(kr))
+					lp.PoolTraceEnd("c09 " + strings.Join(f[1:], " "))
+					return
+				}
 				if strings.HasSuffix(ks, "x") && f[1] == "udp" {
 					kx, _ := strconv.Atoi(strings.TrimSuffix(ks, "x"))
 					fmt.Fprintln(w, runServerCtxStop(kx))
